@@ -7,6 +7,19 @@ ALL = ['C%02d' % i for i in range(1, 21)]
 
 # pid -> (technique, level text, level note, design ref)
 CHECKS = {
+ 'C01': ('Coq proof (composition "exact recovery of the family member by the fit" o "the applied correction maps every '
+         'pixel to its reference", for gWCS in any state / through a reference plane and for the flat FITS model) + '
+         'correspondence in Coq of the fit reported by fit_wcs/align_wcs with the exact model + landing measured',
+         'Machine-checked composition theorems over arbitrary histories (refutation witness for pre-F7). Each run '
+         'builds exact affine errors in the tangent plane of FITS (CD/PC/SIP, RA wrap, high dec) and mock-gWCS '
+         'correctors with 0-2 earlier alignments, all fitgeom and weightings, fit_wcs and align_wcs (scripted shuffled '
+         'matcher); compares the reported matrix/shift in Coq with the exact model fit of the true pairs (agree06) and '
+         'measures that every catalog pixel lands on its reference (gWCS <= 1e-7 arcsec; FITS within 4 D rho^2 scale^2 '
+         'px, measured constant <= 1.0), reported rmse = residual through the corrected WCS on noisy data, '
+         'fit_RA/fit_DEC = corrected positions.',
+         'PARTIAL: the FITS second-order reprojection bound is measured, not proved; external transforms (wcslib, '
+         'gwcs) enter as Section hypotheses. Rounding outside the theorems.',
+         'DESIGN.md section 6 (corrector algebra)'),
  'C02': ('Coq proof (gWCS pipeline state machine: requested affine applied exactly in every reachable state, own and '
          'reference plane; _tp2tp exact on affine maps; FITS exact at the reference pixel for every projection with '
          'P_c(0)=c and everywhere in the flat instance; stencil exact to degree 4) + correspondence in Coq of tp_affine '
@@ -38,6 +51,16 @@ CHECKS = {
          '2^-40), and checks the group laws on the sky for FITS and gWCS.',
          'Independence of copies and "caller\'s FITS WCS object never modified" are measured (the model is purely '
          'functional). External transforms as Section hypotheses.',
+         'DESIGN.md section 6 (corrector algebra)'),
+ 'C05': ('Coq proof (the conjugation used by set_correction equals R o G o R^-1; _tp2tp exact on affine plane-to-plane '
+         'maps; affine maps agreeing on three non-collinear points are equal, hence plane independence; one sky-level '
+         'map for all members of a group) + group alignments through different reference planes measured',
+         'Machine-checked theorems for affine plane-to-plane maps (refutation witness for pre-F7). Each run aligns '
+         'groups of 1..4 FITS / gWCS images with distinct tangent points, orientations and scales through several '
+         'reference planes (member, non-member, rotated/scaled/offset) and compares the resulting sky positions: '
+         'rounding level when planes coincide, otherwise within 10 corr sep L rad (measured <= 3.9); all members land '
+         'on the reference; correspondence of the conjugated affines in Coq.',
+         'PARTIAL: the first-order plane-to-plane bound is measured, not proved. Mixed FITS/gWCS groups not driven.',
          'DESIGN.md section 6 (corrector algebra)'),
  'C06': ('Coq proof (weighted least-squares optimality of fit_shifts / fit_rscale incl. reflections / fit_rshift / '
          'fit_general for every list and weighting; exact recovery) + per-run correspondence evaluated inside Coq',
